@@ -208,7 +208,7 @@ struct Shared<C> {
     t0: Instant,
 }
 
-const MAX_NEW_SIGNATURES: usize = 6;
+const MAX_NEW_SIGNATURES: usize = 40;
 
 fn run_caught<P: Prop>(prop: &P, case: &P::Case) -> Result<Outcome, String> {
     match panics::catch(|| prop.run(case)) {
